@@ -196,3 +196,14 @@ def r3(ctx):
     for r in list(c16.r2(ctx)) + list(c16.r3(ctx)):
         r.rule = "C04-R3"
         yield r
+
+
+import c02  # noqa: E402
+
+
+@M.rule("C04-R5", "the date is interpreted in decoded form on the query carrier too (shared with C02-R1)")
+def r5(ctx):
+    for r in c02.r1(ctx):
+        if "timestamp" in r.key or r.status != "PASS":
+            r.rule = "C04-R5"
+            yield r
